@@ -18,6 +18,9 @@ def build(scene, atmosphere_inside=False):
         eps = complex(*s["eps"])
         if s["kind"] == "reflector":
             sub = make_reflector(s)
+        elif s["kind"] == "reflector_backscatter":
+            from smrt.substrate.reflector_backscatter import make_reflector as mkb
+            sub = mkb(temperature=s["T"], specular_reflection=refl_resolve(s["params"]["specular_reflection"]))
         elif s["kind"] == "flat":
             sub = make_soil("flat", eps, s["T"])
         else:
